@@ -269,6 +269,11 @@ pub fn run_check(check: &dyn Check, tier: &str, base_seed: u64, verif_dir: &str,
         if n == 0 {
             continue;
         }
+        if let Ok(only) = std::env::var("VERIF_ONLY_PROFILE") {
+            if only != spec.name {
+                continue;
+            }
+        }
         let next = AtomicU64::new(0);
         // lowest index with an unknown violation: later indices are skipped
         let cutoff = AtomicU64::new(u64::MAX);
